@@ -149,7 +149,7 @@ def run(m, chk):
         "relative to the minimum); both components of the Newton iterate are clamped on both sides after every update; loops are counter-bounded; the duplicate filter is passed; curves are not modified. "
         "Completeness (every crossing is found) and accuracy are not decided."
     )
-    chk.decides = ["STEP-APPLIED (the Newton iterate is returned only after the step computed for it has been applied)", "END-EXACT (the closed sample 0 .. 1 is mapped onto each parameter interval with an expression that is exact at both ends)", "RESIDUAL-DEGREE (the residual compared with 1e-6 is a distance, not a squared distance)", "ALL-COMPONENTS (the duplicate filter compares both parameters of a pair)", "PRECOND(non-empty)", "ABS-RESIDUAL", "CLAMP", "TERM", "must-pass-through(filter_pairs)", "PURE", "DEP-MAY (both curves, weights included)"]
+    chk.decides = ["RESIDUAL-FINAL (every non-empty answer of curve_and_curve passed the distance filter measured on the two curves themselves)", "STEP-APPLIED (the Newton iterate is returned only after the step computed for it has been applied)", "END-EXACT (the closed sample 0 .. 1 is mapped onto each parameter interval with an expression that is exact at both ends)", "RESIDUAL-DEGREE (the residual compared with 1e-6 is a distance, not a squared distance)", "ALL-COMPONENTS (the duplicate filter compares both parameters of a pair)", "PRECOND(non-empty)", "ABS-RESIDUAL", "CLAMP", "TERM", "must-pass-through(filter_pairs)", "PURE", "DEP-MAY (both curves, weights included)"]
     chk.not_decided = ["every crossing is found", "accuracy of the parameters"]
     # 0. the result depends on every field of both curves (weights included: a rational curve is not its control polygon)
     CC = "advanced.Intersection.curve_and_curve"
@@ -193,7 +193,20 @@ def run(m, chk):
                     chk.ob("PRECOND", f"{q}: `{seg(call, 50)}` dominated by a non-emptiness guard of `{seg(arg, 20)}`", ok, loc=r.loc(ctx, call),
                            detail="" if ok else f"{q}: `{seg(call, 60)}` can be reached with an empty `{seg(arg, 20)}` ({PMD} takes np.min over it ⇒ ValueError): two curves that do not meet must give the empty tuple (the sibling call site has the guard `if len(pairs) == 0: return tuple()`)",
                            func=q, construct="pairs_min_distance without non-emptiness guard")
-    chk.floor("PRECOND", "call sites of pairs_min_distance", sites, 2)
+    chk.floor("PRECOND", "call sites of pairs_min_distance", sites, 1)
+    # 1b. what curve_and_curve hands back has been measured against the ORIGINAL operands: the pieces are cleaned copies
+    # (clean() may replace a nearly polynomial rational piece by an approximation), so their own filter is not enough
+    CCq = "advanced.Intersection.curve_and_curve"
+    cc = r.root(CCq)
+    pmd_calls = [c_ for c_ in cc.calls if any(f_.qual == PMD for f_ in c_.callees)]
+    rets_cc = [n_ for n_ in r.stmt_nodes(cc) if isinstance(n_.ast, ast.Return) and n_.ast.value is not None and not (isinstance(n_.ast.value, ast.Call) and seg(n_.ast.value.func) == "tuple" and not n_.ast.value.args) and not (isinstance(n_.ast.value, ast.Tuple) and not n_.ast.value.elts)]
+    chk.floor("RESIDUAL-FINAL", "non-empty returns of curve_and_curve", len(rets_cc), 1)
+    for n_ in rets_cc:
+        on_originals = [c_ for c_ in pmd_calls if cc.cfg.dominates(c_.cfgnode, n_.id) and isinstance(c_.node, ast.Call) and len(c_.node.args) >= 3 and all(isinstance(a_, ast.Name) and a_.id in cc.fi.params[:2] for a_ in c_.node.args[1:3])]
+        okf = bool(on_originals)
+        chk.ob("RESIDUAL-FINAL", f"{CCq}: `{seg(n_.ast, 40)}` only after the distance filter on the two curves themselves", okf, loc=r.loc(cc, n_.ast),
+               detail="" if okf else f"{CCq}: `{seg(n_.ast, 50)}` is reached without `pairs_min_distance(pairs, {cc.fi.params[0]}, {cc.fi.params[1]})`: the pairs were only measured on the cleaned Bezier pieces — clean() replaces a rational piece with nearly equal weights by a polynomial approximation (squared L2 error below 1e-9, pointwise about 1e-5) — so pairs with |A(t) - B(u)| well above 1e-6 on the curves themselves are returned",
+               func=CCq, construct="final distance filter on the original curves skipped")
     # 2. absolute residual filter
     fi = r.prog.func(PMD)
     g = name_deps(fi)
